@@ -234,12 +234,12 @@ def run(ctx, rec):
     passmon.attach(rec)
     rng = ctx.rng("c05")
     bases = [(l, d) for l, d in spec.structural_designs()]
-    n_rand = 250 if ctx.quick else 600
+    n_rand = 250 if ctx.quick else 1600
     for k in range(n_rand):
         bases.append((f"random #{k}", spec.random_design(rng, max_modules=3)))
     if ctx.nshards > 1:
         bases = bases[ctx.shard:: ctx.nshards]
-    per_base = 8 if ctx.quick else 30
+    per_base = 8 if ctx.quick else 40
     kinds = ["sig", "inst", "nc", "bun", "rename", "port"]
     bases = [(l + " (upper-case names)", upcase(d)) if k % 3 == 1 else (l, d) for k, (l, d) in enumerate(bases)]
     for label, base in bases:
